@@ -7,7 +7,7 @@ EXPLANATION = (
     "(kinds, payloads, repeats, order) and the position maps are compared before/after; the read is also checked against the reference so that "
     "'calling twice gives the same answer' follows from purity + determinism. "
 )
-OUTSIDE = ("Document-level exporters, Markdown/RST/CSV export (csv is C; Markdown export calls optimize_width on the live table - not encoded yet), "
+OUTSIDE = ("Document-level exporters, the csv module itself (C), "
            "Element.search/replace(None)/text readers (pending symdom obligations), style and metadata listings (no symbolic input)")
 ASSUMPTIONS = ["two row-runs x two cell-runs template; expanding readers with repeats in 1..2"]
 TRUSTED = _T
@@ -23,4 +23,8 @@ OBLIGATIONS = krow_reader_obligations() + [
     _o("kget_cell", 50, "unbounded"), _o("kget_row", 13, "unbounded"), _o("kget_rows_small", 60, "repeats in 1..2"),
     _o("kget_cells_small_cols", 90, "cell-runs in 1..2"), _o("kget_cells_small_rows", 125, "row-runs in 1..2"),
     _o("kget_column_small", 56, "repeats in 1..2"), _o("kget_values_small", 105, "repeats in 1..2: get_values, iter_values, flat, cells, size"),
+    Obl(name="export_pure", module="h_export", func="export_pure", shadow=True, timeout=600, replay="r_h_export:export_pure", weight=135,
+        bounds="real Table on the lxml model: row [1, empty x 0..3] + 0..3 empty rows; Markdown, plain text, RST, str(), CSV export, each twice",
+        encodes=["src/odfdo/mixin_md.py:MDTable._md_format", "src/odfdo/table.py:Table.get_formatted_text,_get_formatted_text_normal,_get_formatted_text_rst,__str__,to_csv,optimize_width,rstrip"],
+        stubs=["/verif/shadow/lxml (symdom)"]),
 ]
